@@ -64,7 +64,24 @@ def gen_cases(rng, tier):
         for u, w, v in trip:
             cases.append({'world': pre, 'dm': dm,
                           'op': {'o': 'via', 'x': ['q', _amount(rng), u], 'w': w, 'v': v}})
+    # the conversion requested through the text form with an explicit target unit (both
+    # factories); units of equal scale included: the result carries the REQUESTED unit
+    # (seeded C01-f, C01-g)
+    for cls in siref.LINEAR_TYPES:
+        us = siref.units_of(cls)
+        pairs = list(itertools.product(us, us))
+        same = [(u, v) for u, v in pairs if u != v and siref.REF[u][1] == siref.REF[v][1]]
+        for u, v in same + rng.sample(pairs, min(len(pairs), 6 if tier == 'quick' else 60)):
+            a = rng.choice([x for x in AMOUNTS if ' ' not in str(x)])
+            cases.append({'world': pre, 'dm': dm,
+                          'op': {'o': 'convert', 'x': ['q', ['dec' if W.is_decimal(a) else 'frac', frs(a)], u],
+                                 'v': v, 'text': rng.choice(['cls', 'factory'])}})
     allsyms = sorted(siref.REF) + list(siref.TEMPERATURE)
+    for _ in range(60 if tier == 'quick' else 600):      # other type
+        u, v = rng.choice(allsyms), rng.choice(allsyms)
+        cases.append({'world': pre, 'dm': dm,
+                      'op': {'o': 'convert', 'x': ['q', _amount(rng), u], 'v': v,
+                             'text': rng.choice(['cls', 'tcls', 'tcls', 'factory'])}})
     for _ in range(60 if tier == 'quick' else 600):      # other type
         u, v = rng.choice(allsyms), rng.choice(allsyms)
         cases.append({'world': pre, 'dm': dm,
